@@ -51,14 +51,9 @@ def _value_ok(node, var):
 
 
 def _iter_param(node, param):
-    """the iterable of a registration loop: dyn_params (any order of iteration registers the same
-    bindings as long as the keys are distinct; `reversed` changes which of two equal keys wins, so it
-    is translated, not ignored)"""
+    """the iterable of a registration loop must be dyn_params itself"""
     if isinstance(node, ast.Name) and node.id == param:
         return "ds"
-    if isinstance(node, ast.Call) and isinstance(node.func, ast.Name) and node.func.id == "reversed" and len(node.args) == 1 \
-            and isinstance(node.args[0], ast.Name) and node.args[0].id == param:
-        return "(rev ds)"
     return None
 
 
@@ -136,6 +131,9 @@ def _single_assign(fn, target):
         raise TranslateError(f"{fn.name}: expected exactly one plain assignment to {target}, found {len(found)}")
     if found[0] not in fn.body:
         _fail(found[0], f"{fn.name}: the assignment to {target} is conditional")
+    for st in fn.body[:fn.body.index(found[0])]:
+        if any(isinstance(n, ast.Return) for n in ast.walk(st)):
+            _fail(st, f"{fn.name}: may return before the assignment to {target}")
     return found[0].value
 
 
